@@ -526,11 +526,14 @@ def load_nc():
 def build_control():
     """compile the positive-control crate with the same driver; returns the directory with its facts"""
     build_driver()
-    out = os.path.join(CACHE, "control-units")
+    # one directory per process: several checks (of different trees, or the two tiers of C10) may run side by side
+    import atexit
+    out = os.path.join(CACHE, "control-units-%d" % os.getpid())
     shutil.rmtree(out, ignore_errors=True)
     os.makedirs(out)
-    tgt = os.path.join(CACHE, "control-tgt")
+    tgt = os.path.join(CACHE, "control-tgt-%d" % os.getpid())
     shutil.rmtree(tgt, ignore_errors=True)
+    atexit.register(lambda: (shutil.rmtree(out, ignore_errors=True), shutil.rmtree(tgt, ignore_errors=True)))
     env = _cargo_env(out, tgt)
     r = subprocess.run("cargo +nightly check --offline", shell=True, cwd=os.path.join(VERIF, "selftest", "control"), env=env, stdout=subprocess.PIPE, stderr=subprocess.PIPE, text=True)
     if r.returncode != 0:
